@@ -14,9 +14,10 @@ Theorem C05_enqueue_before_write_no_stuck :
     (forall j, 1 <= ilen j) -> (forall j, 1 <= alen j) ->
     (p_echo pr = true -> forall j, alen j = ilen j) ->
     1 <= p_cin pr -> 1 <= p_cout pr -> p_order pr = true ->
+    (p_mid_peek pr = true -> p_poison_first pr = true) -> (p_mid_peek pr = true -> p_peek_eof_ok pr = true) ->
     reachable (wstep pr ilen alen) (w_init recs) s ->
     wstuck pr ilen alen s = true -> wterminal s = true.
-Proof. intros pr ilen alen recs s Hi Ha He Hci Hco Ho. exact (wrapper_no_stuck pr ilen alen Hi Ha He Hci Hco Ho recs s). Qed.
+Proof. intros pr ilen alen recs s Hi Ha He Hci Hco Ho Hm1 Hm2. exact (wrapper_no_stuck pr ilen alen Hi Ha He Hci Hco Ho Hm1 Hm2 recs s). Qed.
 Print Assumptions C05_enqueue_before_write_no_stuck.
 
 (* [wstuck] tests eight canonical labels; they cover enabledness of every label with every argument *)
@@ -32,8 +33,9 @@ Theorem C05_no_spurious_child_error :
     (forall j, 1 <= ilen j) -> (forall j, 1 <= alen j) ->
     (p_echo pr = true -> forall j, alen j = ilen j) ->
     1 <= p_cin pr -> 1 <= p_cout pr -> p_order pr = true ->
+    (p_mid_peek pr = true -> p_poison_first pr = true) -> (p_mid_peek pr = true -> p_peek_eof_ok pr = true) ->
     reachable (wstep pr ilen alen) (w_init recs) s -> w_kpc s <> KErr.
-Proof. intros pr ilen alen recs s Hi Ha He Hci Hco Ho. exact (wrapper_no_error pr ilen alen Hi Ha He Hci Hco Ho recs s). Qed.
+Proof. intros pr ilen alen recs s Hi Ha He Hci Hco Ho Hm1 Hm2. exact (wrapper_no_error pr ilen alen Hi Ha He Hci Hco Ho Hm1 Hm2 recs s). Qed.
 Print Assumptions C05_no_spurious_child_error.
 
 (* correctly ordered output under EVERY interleaving, order of enqueue/write, capacity, buffering policy
@@ -64,57 +66,66 @@ Theorem C05_terminates :
     (forall j, 1 <= ilen j) -> (forall j, 1 <= alen j) ->
     (p_echo pr = true -> forall j, alen j = ilen j) ->
     1 <= p_cin pr -> 1 <= p_cout pr -> p_order pr = true ->
+    (p_mid_peek pr = true -> p_poison_first pr = true) -> (p_mid_peek pr = true -> p_peek_eof_ok pr = true) ->
     run (wstep pr ilen alen) (w_init recs) ls = Some s ->
     length ls <= wmeasure pr ilen alen (w_init recs).
-Proof. intros pr ilen alen recs ls s Hi Ha He Hci Hco Ho. exact (wrapper_runs_bounded pr ilen alen Hi Ha He Hci Hco Ho recs ls s). Qed.
+Proof. intros pr ilen alen recs ls s Hi Ha He Hci Hco Ho Hm1 Hm2. exact (wrapper_runs_bounded pr ilen alen Hi Ha He Hci Hco Ho Hm1 Hm2 recs ls s). Qed.
 Print Assumptions C05_terminates.
 
 (* the three tools, with the parameters read from their source *)
-Definition tool_params (order poison_first final_peek : bool) (cin cout : nat) (echo : bool) (kpol : option nat) : wparams :=
-  mkP order poison_first final_peek cin cout echo kpol.
+(* early = the child may answer a line as soon as its first byte arrives; mid_peek / eof_ok = the in-loop
+   `if (queue.Empty()) { peek(); if (queue.Empty()) throw }` of foldfilter and whether an end-of-file of that
+   peek is tolerated once the queue is non-empty (regenerated from the source) *)
+Definition tool_params (order poison_first final_peek : bool) (cin cout : nat) (echo : bool) (kpol : option nat)
+           (early mid_peek eof_ok : bool) : wparams :=
+  mkP order poison_first final_peek cin cout echo kpol early mid_peek eof_ok.
 
+(* foldfilter, including its in-loop peek and children that answer early: never stuck, and the collector
+   never aborts with a child error (needs fold_peek_eof_ok = true, i.e. the fix; see the refuted theorem below) *)
 Theorem C05_foldfilter_never_stuck :
-  forall cin cout echo kpol ilen alen recs s,
+  forall cin cout echo kpol early ilen alen recs s,
     (forall j, 1 <= ilen j) -> (forall j, 1 <= alen j) -> (echo = true -> forall j, alen j = ilen j) ->
     1 <= cin -> 1 <= cout ->
-    let pr := tool_params fold_order fold_poison_first fold_final_peek cin cout echo kpol in
-    reachable (wstep pr ilen alen) (w_init recs) s -> wstuck pr ilen alen s = true -> wterminal s = true.
+    let pr := tool_params fold_order fold_poison_first fold_final_peek cin cout echo kpol early fold_mid_peek fold_peek_eof_ok in
+    reachable (wstep pr ilen alen) (w_init recs) s ->
+    (wstuck pr ilen alen s = true -> wterminal s = true) /\ w_kpc s <> KErr.
 Proof.
-  intros cin cout echo kpol ilen alen recs s Hi Ha He Hci Hco pr.
-  exact (wrapper_no_stuck pr ilen alen Hi Ha He Hci Hco eq_refl recs s).
+  intros cin cout echo kpol early ilen alen recs s Hi Ha He Hci Hco pr Hr. split.
+  - exact (wrapper_no_stuck pr ilen alen Hi Ha He Hci Hco eq_refl (fun _ => eq_refl) (fun _ => eq_refl) recs s Hr).
+  - exact (wrapper_no_error pr ilen alen Hi Ha He Hci Hco eq_refl (fun _ => eq_refl) (fun _ => eq_refl) recs s Hr).
 Qed.
 Print Assumptions C05_foldfilter_never_stuck.
 
 Theorem C05_b64filter_never_stuck :
-  forall cin cout echo kpol ilen alen recs s,
+  forall cin cout echo kpol early ilen alen recs s,
     (forall j, 1 <= ilen j) -> (forall j, 1 <= alen j) -> (echo = true -> forall j, alen j = ilen j) ->
     1 <= cin -> 1 <= cout ->
-    let pr := tool_params b64_order b64_poison_first b64_final_peek cin cout echo kpol in
+    let pr := tool_params b64_order b64_poison_first b64_final_peek cin cout echo kpol early false false in
     reachable (wstep pr ilen alen) (w_init recs) s -> wstuck pr ilen alen s = true -> wterminal s = true.
 Proof.
-  intros cin cout echo kpol ilen alen recs s Hi Ha He Hci Hco pr.
-  exact (wrapper_no_stuck pr ilen alen Hi Ha He Hci Hco eq_refl recs s).
+  intros cin cout echo kpol early ilen alen recs s Hi Ha He Hci Hco pr.
+  apply (wrapper_no_stuck pr ilen alen Hi Ha He Hci Hco eq_refl); intros X; discriminate X.
 Qed.
 Print Assumptions C05_b64filter_never_stuck.
 
 (* cache: holds because (since the fix) cache_main.cc enqueues before it writes; with the order found
    originally (cache_order = false) [eq_refl] below does not type-check and the statement is refuted, see below *)
 Theorem C05_cache_never_stuck :
-  forall cin cout echo kpol ilen alen recs s,
+  forall cin cout echo kpol early ilen alen recs s,
     (forall j, 1 <= ilen j) -> (forall j, 1 <= alen j) -> (echo = true -> forall j, alen j = ilen j) ->
     1 <= cin -> 1 <= cout ->
-    let pr := tool_params cache_order cache_poison_first cache_final_peek cin cout echo kpol in
+    let pr := tool_params cache_order cache_poison_first cache_final_peek cin cout echo kpol early false false in
     reachable (wstep pr ilen alen) (w_init recs) s -> wstuck pr ilen alen s = true -> wterminal s = true.
 Proof.
-  intros cin cout echo kpol ilen alen recs s Hi Ha He Hci Hco pr.
-  exact (wrapper_no_stuck pr ilen alen Hi Ha He Hci Hco eq_refl recs s).
+  intros cin cout echo kpol early ilen alen recs s Hi Ha He Hci Hco pr.
+  apply (wrapper_no_stuck pr ilen alen Hi Ha He Hci Hco eq_refl); intros X; discriminate X.
 Qed.
 Print Assumptions C05_cache_never_stuck.
 
 (* the defect that was in cache: with enqueue-AFTER-write, a byte-copying child (cat) and one line longer
    than both pipes, a stuck non-terminal state is reachable: feeder blocked writing the line, child blocked
    writing its echo, collector waiting for bookkeeping that is only enqueued after the write *)
-Definition refuted_params : wparams := mkP false false false 1 1 true (Some 1).
+Definition refuted_params : wparams := mkP false false false 1 1 true (Some 1) false false false.
 Definition refuted_labels : list wlabel :=
   [LFeed; LSend 4; LFlushStart; LPush 1; LChildRead 1; LChildWrite 1; LPush 1; LChildRead 1; LPush 1].
 
@@ -136,15 +147,31 @@ Print Assumptions C05_enqueue_after_write_refuted.
 
 (* non-vacuity: a complete run of the foldfilter instance (2 records of 2 and 1 lines, line lengths 2,
    capacities 1, answers held in blocks of 2) that reaches the terminal state with both records emitted *)
-Definition nonvac_params : wparams := tool_params fold_order fold_poison_first fold_final_peek 1 1 false (Some 2).
+(* the defect that was in foldfilter (audit H1): with the in-loop peek NOT tolerating the child's end-of-file
+   (fold_peek_eof_ok = false, the code as found), a child that answers each line at its first byte, a piece
+   whose first part is flushed while its newline stays buffered, and stdin stalling until end of input, the
+   collector - having already emitted EVERY record - aborts ("KErr") although the poison is in the queue:
+   `(python3 -c "print('a'*10000)"; sleep 2) | foldfilter -w 100000 early_child.py` exits 134 with no output *)
+Definition peek_refuted_params : wparams := mkP true true false 4 4 false (Some 1) true true false.
+Definition peek_refuted_labels : list wlabel :=
+  [LFeed; LSend 1; LFlushStart; LPush 1; LChildRead 1; LChildWrite 2; LCollect 0; LCollect 2; LCollect 0; LCollect 0; LCollect 0;
+   LSend 1; LFeed; LFeed; LFeed; LPush 1; LFeed; LChildRead 1; LChildEof; LCollect 0].
+
+Theorem C05_foldfilter_peek_eof_refuted :
+  match run (wstep peek_refuted_params (fun _ => 2) (fun _ => 2)) (w_init [1]) peek_refuted_labels with
+  | Some s => w_kpc s = KErr /\ w_queue s = [None] /\ rev (w_emitted s) = pairs 0 [1] /\ w_cexit s = true /\ w_fpc s = FDone
+  | None => False
+  end.
+Proof. vm_compute. repeat split. Qed.
+Print Assumptions C05_foldfilter_peek_eof_refuted.
+
+Definition nonvac_params : wparams := tool_params fold_order fold_poison_first fold_final_peek 1 1 false (Some 2) false fold_mid_peek fold_peek_eof_ok.
 Definition nonvac_labels : list wlabel :=
-  [LFeed; LSend 4; LFeed; LFeed; LSend 2; LFeed; LFeed; LFeed;
+  [LFeed; LCollect 1; LSend 1; LSend 1; LSend 1; LSend 1; LFeed; LFeed; LSend 1; LSend 1; LFeed; LFeed; LFeed;
    LPush 1; LChildRead 1; LPush 1; LChildRead 1; LPush 1; LChildRead 1; LPush 1; LChildRead 1;
-   LChildWrite 1; LCollect 0; LCollect 1; LChildWrite 1; LCollect 1; LCollect 0;
-   LChildWrite 1; LCollect 1; LChildWrite 1; LCollect 1; LCollect 0; LCollect 0;
-   LPush 1; LChildRead 1; LPush 1; LChildRead 1; LFeed; LChildEof;
-   LCollect 0; LChildWrite 1; LCollect 1; LChildWrite 1; LCollect 1; LCollect 0; LCollect 0;
-   LCollect 0; LChildEof].
+   LChildWrite 1; LCollect 1; LChildWrite 1; LCollect 1; LCollect 1; LChildWrite 1; LCollect 1; LChildWrite 1; LCollect 1;
+   LCollect 1; LCollect 1; LCollect 1; LCollect 1; LPush 1; LChildRead 1; LPush 1; LChildRead 1; LFeed; LChildEof;
+   LChildWrite 1; LCollect 1; LChildWrite 1; LCollect 1; LCollect 1; LCollect 1; LCollect 1; LCollect 1; LChildEof].
 
 Example C05_nonvacuous_run :
   match run (wstep nonvac_params (fun _ => 2) (fun _ => 2)) (w_init [2; 1]) nonvac_labels with
@@ -154,10 +181,37 @@ Example C05_nonvacuous_run :
 Proof. vm_compute. split; reflexivity. Qed.
 
 
-(* non-vacuity of the termination bound: for the run above (43 steps, all premises of C05_terminates met:
+(* the same for the other two parameter sets: cache (byte-copying child, records that send 1 / 0 / 1 lines: the
+   middle one is a repeat served from the table, cin = 2) and b64filter (child that answers only at end of
+   input, cout = 2): complete runs that end terminated with every record emitted, within the bound *)
+Definition nonvac_cache_params : wparams := tool_params cache_order cache_poison_first cache_final_peek 2 1 true None false false false.
+Example C05_nonvacuous_run_cache :
+  match run (wstep nonvac_cache_params (fun _ => 2) (fun _ => 2)) (w_init [1; 0; 1])
+    [LFeed; LCollect 1; LSend 1; LSend 1; LFeed; LFeed; LFeed; LFeed; LSend 1; LSend 1; LFeed; LFeed; LFeed; LPush 1;
+     LChildRead 1; LChildWrite 1; LCollect 1; LPush 1; LChildRead 1; LChildWrite 1; LCollect 1; LCollect 1; LCollect 1;
+     LCollect 1; LCollect 1; LCollect 1; LPush 1; LChildRead 1; LChildWrite 1; LCollect 1; LPush 1; LChildRead 1;
+     LChildWrite 1; LCollect 1; LCollect 1; LCollect 1; LFeed; LFeed; LCollect 1; LChildEof] with
+  | Some s => wterminal s = true /\ w_kpc s = KDone /\ rev (w_emitted s) = [(0, 1); (1, 0); (1, 1)]
+  | None => False
+  end /\ wmeasure nonvac_cache_params (fun _ => 2) (fun _ => 2) (w_init [1; 0; 1]) = 89.
+Proof. vm_compute. repeat split. Qed.
+
+Definition nonvac_b64_params : wparams := tool_params b64_order b64_poison_first b64_final_peek 1 2 false None false false false.
+Example C05_nonvacuous_run_b64filter :
+  match run (wstep nonvac_b64_params (fun _ => 2) (fun _ => 1)) (w_init [2; 1])
+    [LFeed; LCollect 1; LSend 1; LSend 1; LSend 1; LSend 1; LFeed; LFeed; LSend 1; LSend 1; LFeed; LFeed; LFeed;
+     LPush 1; LChildRead 1; LPush 1; LChildRead 1; LPush 1; LChildRead 1; LPush 1; LChildRead 1; LPush 1; LChildRead 1;
+     LPush 1; LChildRead 1; LFeed; LChildEof; LChildWrite 1; LCollect 1; LCollect 1; LChildWrite 1; LCollect 1; LCollect 1;
+     LCollect 1; LCollect 1; LChildWrite 1; LCollect 1; LCollect 1; LCollect 1; LCollect 1; LChildEof; LCollect 1] with
+  | Some s => wterminal s = true /\ w_kpc s = KDone /\ rev (w_emitted s) = [(0, 2); (2, 1)]
+  | None => False
+  end /\ wmeasure nonvac_b64_params (fun _ => 2) (fun _ => 1) (w_init [2; 1]) = 83.
+Proof. vm_compute. repeat split. Qed.
+
+(* non-vacuity of the termination bound: for the run above (49 steps, all premises of C05_terminates met:
    lengths 2, capacities 1, enqueue before write) the bound is a concrete number that the run respects *)
 Example C05_nonvacuous_bound :
   p_order nonvac_params = true /\
-  length nonvac_labels = 43 /\
-  wmeasure nonvac_params (fun _ => 2) (fun _ => 2) (w_init [2; 1]) = 86.
+  length nonvac_labels = 49 /\
+  wmeasure nonvac_params (fun _ => 2) (fun _ => 2) (w_init [2; 1]) = 95.
 Proof. vm_compute. repeat split. Qed.
